@@ -65,6 +65,72 @@ APMATH_LAX = [
 ]
 
 
+# definitions with the same signature whose bodies share sub-expressions built in different orders (for histories on ONE Context)
+def ru_a(ctx, x, y):
+    return ctx.select(x == y, x, -y)
+
+
+def ru_b(ctx, x, y):
+    return ctx.select(ctx.logical_or(x < y, x == y), x, y)
+
+
+def ru_c(ctx, x, y):
+    return ctx.select(ctx.logical_and(x == y, x < y), x + y, y)
+
+
+def ru_d(ctx, x, y):
+    s = (x + y) * (x - y)
+    return ctx.select(x < y, s, s * s)
+
+
+def ru_e(ctx, x, y):
+    d = (x - y) * (x + y)
+    return d + ctx.select(ctx.logical_or(x == y, y < x), d, x)
+
+
+def ru_f(ctx, x, y):
+    return ctx.select(ctx.logical_and(ctx.logical_or(y < x, x == y), x < y), abs(x), abs(y) + x)
+
+
+REUSE_FUNCS = [ru_a, ru_b, ru_c, ru_d, ru_e, ru_f]
+REUSE_TARGETS = {"python": "float", "numpy": "float32", "cpp": "float64", "stablehlo": "float", "xla_client": "float"}
+
+
+def reuse_generate(fa, tname, seq):
+    """texts of the functions REUSE_FUNCS[i] for i in seq, all traced and emitted on ONE Context (same argument types)"""
+    target = getattr(fa.targets, tname)
+    t = REUSE_TARGETS[tname]
+    enable_alt, dct = (True, "FloatType") if tname == "xla_client" else (False, None)
+    out = []
+    with quiet():
+        ctx = fa.Context(paths=[fa.algorithms], enable_alt=enable_alt, default_constant_type=dct)
+        for i in seq:
+            try:
+                g = ctx.trace(REUSE_FUNCS[i], f"x:{t}", f"y:{t}").implement_missing(target).simplify()
+                out.append(g.tostring(target))
+            except Exception as e:
+                out.append(f"!{type(e).__name__}: {e}")
+    return out
+
+
+_GENERATED_NAME = None
+
+
+def alpha(text):
+    """the text with generated variable names (kind_<n>, _prefix_<n>_) renamed in order of first appearance"""
+    import re
+
+    global _GENERATED_NAME
+    if _GENERATED_NAME is None:
+        _GENERATED_NAME = re.compile(r"\b(?:[A-Za-z]+(?:_[A-Za-z0-9]+)*_\d+|_\w+?_\d+_)\b")
+    names = {}
+
+    def sub(m):
+        return names.setdefault(m.group(0), f"v{len(names)}")
+
+    return "".join(_GENERATED_NAME.sub(sub, text).split())  # layout (line breaks chosen by the formatters) is not compared
+
+
 def extra_requests(fa):
     """requests beyond the five trace_arguments tables: the lax table, the apmath->lax generator entries, synthetic definitions."""
     out = [r for r in requests(fa, ["lax"])]
